@@ -397,9 +397,9 @@ var (
 func genBBDesc(w *bbWorld) *rapid.Generator[bbBallotDesc] {
 	return rapid.Custom(func(t *rapid.T) bbBallotDesc {
 		d := bbBallotDesc{
-			Height: int64(rapid.IntRange(33, 35).Draw(t, "height")),
-			Round:  uint64(rapid.SampledFrom([]int{0, 0, 0, 1, 2}).Draw(t, "round")),
-			Kind:   rapid.SampledFrom(w.kinds).Draw(t, "kind"),
+			Height:  int64(rapid.IntRange(33, 35).Draw(t, "height")),
+			Round:   uint64(rapid.SampledFrom([]int{0, 0, 0, 1, 2}).Draw(t, "round")),
+			Kind:    rapid.SampledFrom(w.kinds).Draw(t, "kind"),
 			ExpelBy: rapid.SampledFrom([]string{"full", "full", "full", "one", "foreign", "expired"}).Draw(t, "expelBy"),
 		}
 
